@@ -444,3 +444,18 @@ pub fn replay(_label: &str, case: &Value, ctx: &mut Ctx) -> Option<Violation> {
     let c: Case = serde_json::from_value(case.clone()).ok()?;
     ctx.run_one("replay", &c, &|c, l| exec(c, l))
 }
+
+pub fn meta() -> super::Meta {
+    super::Meta {
+        id: ID,
+        level: "exploration",
+        rule: "cases = (D+1)-simplex + query point: every ordered tuple of the {0,1,2}^2 grid (exhaustive) and of the {0,1}^3 cube (exhaustive in thorough, a seed-chosen quarter in quick), plus proptest-generated integer/dyadic/cospherical/flat/translated tuples for D=2..5, each under all (D<=3) or up to 24 vertex permutations; an evaluation = one predicate call compared with the exact sign when the determinant is outside tol+rounding bound; non-trivial = exact orientation or in-sphere determinant is 0, or |det| < 1024*(tol+bound); distinct by coordinate tuple",
+        assumptions: &[
+            "tolerance band = base_tol + 1e-12*max row sum (geometry/matrix.rs::adaptive_tolerance); rounding bound = 2*gamma_n*sum|cof_ij|(|L||U|)_ij from a mirrored GEPP, see DESIGN 2.1",
+            "insphere_distance is held only to the no-opposite-strict-answers cross-check",
+            "no demand on in-sphere answers when the simplex itself is flat or in band",
+        ],
+        exhaustive: false,
+        max_shards: 8,
+    }
+}
